@@ -7,14 +7,15 @@ Section Spec.
   Variables key cert msg sig : Type.
   Variable cert_of : key -> cert.
   Variable sign : key -> msg -> sig.
-  Variable verify : cert -> msg -> sig -> bool.
-  Variable readable : cert -> bool.
+  (* the KeyDescriptor carries no certificate text *)
   Variable blank : cert -> bool.
 
-  (* c is published under entity e for signing or with no declared use (stated from the metadata
-     structure, not through the model's certs function) *)
+  (* c is a key that entity e publishes for signing or with no declared use (stated from the metadata
+     structure, not through the model's certs function); a KeyDescriptor that carries no certificate text
+     -- a KeyName only, an X509Data without X509Certificate -- names a key but holds none *)
   Definition published_for_signing (md : metadata cert) (e : string) (c : cert) : Prop :=
-    exists roles role u, lookup_md e md = Some roles /\ In role roles /\ In (u, c) role /\ u <> Some Encryption.
+    exists roles role u, lookup_md e md = Some roles /\ In role roles /\ In (u, c) role /\ u <> Some Encryption
+                         /\ blank c = false.
 
   Definition no_signing_key (md : metadata cert) (issuer : option string) : Prop :=
     forall e c, issuer = Some e -> ~ published_for_signing md e c.
@@ -39,29 +40,6 @@ Section Spec.
 
   Definition spec (x : input cert msg sig) (out : bool * list cert) : Prop := sound x out /\ complete x out.
 
-  (* ---- finding C03-F2: the claimed issuer publishes, for signing or with no use, a KeyDescriptor that
-     carries no certificate text (MetaData.certs raises KeyError and every key of the issuer is lost) ---- *)
-  Definition blank_published (md : metadata cert) (issuer : option string) : Prop :=
-    exists e c, issuer = Some e /\ published_for_signing md e c /\ blank c = true.
-
-  (* soundness is lost only where the opt-in fallback is on and an enveloped signature is verified *)
-  Definition sguard (x : input cert msg sig) : Prop :=
-    only_md x = false -> detached x = false -> ~ blank_published (md x) (claimed x).
-
-  (* ---- finding C03-F1 (completeness only, detached signatures only): walking the issuer's published
-     signing certificates in order, one that does not load as a certificate comes before any
-     certificate that verifies the signature ---- *)
-  Definition unreadable_first (cs : list cert) (mm : msg) (ss : sig) : Prop :=
-    exists pre c post, cs = (pre ++ c :: post)%list /\ readable c = false /\ forall c', In c' pre -> verify c' mm ss = false.
-
-  Definition guard (x : input cert msg sig) : Prop :=
-    ~ blank_published (md x) (claimed x)
-    /\ (detached x = true -> ~ unreadable_first (walk_certs (md x) (claimed x)) (m x) (s x)).
-
-  (* soundness and completeness, each outside its finding classes *)
-  Definition gspec (x : input cert msg sig) (out : bool * list cert) : Prop :=
-    (sguard x -> sound x out) /\ (guard x -> complete x out).
-
   (* ---- a long-lived receiver: "the loaded metadata" is the set loaded by the last successful
      (re)load before the message is verified; P is the per-message requirement ---- *)
   Definition loaded (init : metadata cert) (pre : list (op cert msg sig)) : metadata cert :=
@@ -84,11 +62,6 @@ Arguments made_by {key cert msg sig}.
 Arguments sound {key cert msg sig}.
 Arguments complete {key cert msg sig}.
 Arguments spec {key cert msg sig}.
-Arguments unreadable_first {cert msg sig}.
-Arguments guard {cert msg sig}.
-Arguments blank_published {cert}.
-Arguments sguard {cert msg sig}.
-Arguments gspec {key cert msg sig}.
 Arguments loaded {cert msg sig}.
 Arguments is_check {cert msg sig}.
 Arguments nchecks {cert msg sig}.
